@@ -5,4 +5,574 @@ import PjVerif.Lemmas.SchedPass
 import PjVerif.Spec.Sched2
 namespace Pj
 
+/-- two results whose images under `g` are told apart by a Boolean projection are different -/
+theorem map_ne_of_proj {α β γ : Type} [BEq γ] [ReflBEq γ] (a b : Res α) (g : α → β) (p : β → γ)
+    (h : (match a, b with | .ok o, .ok o' => (p (g o) != p (g o')) | _, _ => false) = true) :
+    a.map g ≠ b.map g := by
+  intro he
+  cases a with
+  | error e => simp at h
+  | ok o =>
+    cases b with
+    | error e => simp at h
+    | ok o' =>
+      simp only [Except.map] at he
+      injection he with he
+      simp only [he] at h
+      simp [bne] at h
+
+/-! ### what the stages of a placement do to the dates of the task being placed -/
+
+theorem setF_f_same (σ : SS) (t : Uid) (g : Fields → Fields) : (setF σ t g).f t = g (σ.f t) := by
+  simp [setF]
+
+theorem now_f (env : Env) (σ : SS) : (now env σ).2.f = σ.f := rfl
+
+/-- `fwdStart`: the end is untouched, a start is present afterwards, a start already there is kept -/
+theorem fwdStart_res (env : Env) (cal : Cal) (used : Int → Rat) (t : Uid) (m : Time) (σ σ' : SS)
+    (h : fwdStart env cal used t m σ = .ok σ') :
+    (σ'.f t).end_ = (σ.f t).end_ ∧ (σ'.f t).start.isSome = true ∧
+    (∀ s, (σ.f t).start = some s → σ' = σ) := by
+  unfold fwdStart at h
+  simp only at h
+  split at h
+  · rename_i s hs
+    cases h
+    exact ⟨rfl, by simp [hs], fun _ _ => rfl⟩
+  · rename_i hs
+    refine (fun (hh : (σ'.f t).end_ = (σ.f t).end_ ∧ (σ'.f t).start.isSome = true) =>
+      ⟨hh.1, hh.2, fun s h' => by rw [hs] at h'; cases h'⟩) ?_
+    split at h
+    · simp only [bind, Except.bind] at h
+      split at h
+      · cases h
+      · cases h
+        simp [setF_f_same, now_f]
+    · split at h
+      · cases h; simp [setF_f_same]
+      · cases h; simp [setF_f_same]
+
+theorem fillEst_dates (env : Env) (t : Uid) (σ σ' : SS) (h : fillEst env t σ = .ok σ') :
+    (σ'.f t).start = (σ.f t).start ∧ (σ'.f t).end_ = (σ.f t).end_ := by
+  unfold fillEst at h
+  simp only [bind, Except.bind] at h
+  split at h
+  · cases h
+  · rename_i σ1 h1
+    have s1 : (σ1.f t).start = (σ.f t).start ∧ (σ1.f t).end_ = (σ.f t).end_ := by
+      split at h1
+      · cases h1; exact ⟨rfl, rfl⟩
+      · split at h1
+        · cases h1; simp [setF_f_same]
+        · split at h1
+          · cases h1
+          · cases h1; simp [setF_f_same]
+    have s2 : (σ'.f t).start = (σ1.f t).start ∧ (σ'.f t).end_ = (σ1.f t).end_ := by
+      split at h
+      · cases h; exact ⟨rfl, rfl⟩
+      · split at h
+        · cases h; simp [setF_f_same]
+        · split at h
+          · cases h
+          · cases h; simp [setF_f_same]
+    exact ⟨s2.1.trans s1.1, s2.2.trans s1.2⟩
+
+theorem fwdEnd_res (env : Env) (cal : Cal) (used : Int → Rat) (t : Uid) (σ σ' : SS)
+    (h : fwdEnd env cal used t σ = .ok σ') :
+    (σ'.f t).start = (σ.f t).start ∧ (σ'.f t).end_.isSome = true := by
+  unfold fwdEnd at h
+  simp only at h
+  split at h
+  · rename_i e he
+    cases h; exact ⟨rfl, by simp [he]⟩
+  · split at h
+    · simp only [bind, Except.bind] at h
+      split at h
+      · cases h
+      · rename_i v hv
+        obtain ⟨e, rows⟩ := v
+        cases h
+        simp [setF_f_same, now_f, addRows]
+    · split at h
+      · cases h
+      · cases h; simp [setF_f_same]
+
+theorem bwdEnd_res (env : Env) (cal : Cal) (used : Int → Rat) (t : Uid) (m m' : Time) (σ σ' : SS)
+    (h : bwdEnd env cal used t m m' σ = .ok σ') : (σ'.f t).end_.isSome = true := by
+  unfold bwdEnd at h
+  simp only at h
+  split at h
+  · rename_i e he
+    cases h; simp [he]
+  · split at h
+    · simp only [bind, Except.bind] at h
+      split at h
+      · cases h
+      · cases h; simp [setF_f_same]
+    · split at h
+      · cases h; simp [setF_f_same]
+      · cases h; simp [setF_f_same]
+
+theorem bwdStart_res (env : Env) (cal : Cal) (used : Int → Rat) (t : Uid) (m : Time) (σ σ' : SS)
+    (h : bwdStart env cal used t m σ = .ok σ') :
+    (σ'.f t).end_ = (σ.f t).end_ ∧ (σ'.f t).start.isSome = true := by
+  unfold bwdStart at h
+  simp only at h
+  split at h
+  · simp only [bind, Except.bind] at h
+    split at h
+    · cases h
+    · rename_i v hv
+      obtain ⟨s, rows⟩ := v
+      cases h
+      simp [setF_f_same, addRows]
+  · split at h
+    · cases h
+    · cases h; simp [setF_f_same]
+
+/-- both dates of a freshly placed task are set (forward) -/
+theorem fwdPlace_dates (env : Env) (σ σ' : SS) (t : Uid) (m : Time) (h : fwdPlace env σ t m = .ok σ') :
+    (σ'.f t).start.isSome = true ∧ (σ'.f t).end_.isSome = true := by
+  unfold fwdPlace at h
+  rcases hr : resLookup σ.res (env.info t).resource with ⟨res', cal⟩
+  simp only [hr, bind, Except.bind, pure, Except.pure] at h
+  split at h
+  · cases h
+    simp [markDone, setF_f_same]
+  · split at h
+    · cases h
+    · rename_i σ1 h1
+      split at h
+      · cases h
+      · rename_i σ2 h2
+        split at h
+        · cases h
+        · rename_i σ3 h3
+          cases h
+          have a := fwdStart_res _ _ _ _ _ _ _ h1
+          have b := fillEst_dates _ _ _ _ h2
+          have c := fwdEnd_res _ _ _ _ _ _ h3
+          show (σ3.f t).start.isSome = true ∧ (σ3.f t).end_.isSome = true
+          exact ⟨by rw [c.1, b.1]; exact a.2.1, c.2⟩
+
+theorem bwdPlace_dates (env : Env) (σ σ' : SS) (t : Uid) (m m' : Time) (h : bwdPlace env σ t m m' = .ok σ') :
+    (σ'.f t).start.isSome = true ∧ (σ'.f t).end_.isSome = true := by
+  unfold bwdPlace at h
+  rcases hr : resLookup σ.res (env.info t).resource with ⟨res', cal⟩
+  simp only [hr, bind, Except.bind, pure, Except.pure] at h
+  split at h
+  · cases h
+    simp [markDone, setF_f_same]
+  · split at h
+    · cases h
+    · rename_i σ1 h1
+      split at h
+      · cases h
+      · rename_i σ2 h2
+        split at h
+        · cases h
+        · rename_i σ3 h3
+          cases h
+          have a := bwdEnd_res _ _ _ _ _ _ _ _ h1
+          have b := fillEst_dates _ _ _ _ h2
+          have c := bwdStart_res _ _ _ _ _ _ _ h3
+          show (σ3.f t).start.isSome = true ∧ (σ3.f t).end_.isSome = true
+          exact ⟨c.2, by rw [c.1, b.2]; exact a⟩
+
+/-- every done task has both dates -/
+def DatesSet (σ : SS) : Prop := ∀ x ∈ σ.done, (σ.f x).start.isSome = true ∧ (σ.f x).end_.isSome = true
+
+theorem place_datesSet (σ σ' : SS) (t : Uid) (hi : DatesSet σ) (he : Ext σ σ') (hd : σ'.done = σ.done ++ [t])
+    (ht : (σ'.f t).start.isSome = true ∧ (σ'.f t).end_.isSome = true) : DatesSet σ' := by
+  intro x hx
+  rw [hd] at hx
+  rcases List.mem_append.1 hx with hx | hx
+  · rw [he.frozen x hx]; exact hi x hx
+  · simp only [List.mem_singleton] at hx
+    subst hx; exact ht
+
+theorem fwdPass_datesSet (env : Env) (fuel : Nat) (stk : List Uid) (σ : SS) (t : Uid) (m : Time) (σ' : SS)
+    (hi : DatesSet σ) (h : fwdPass env fuel stk σ t m = .ok σ') : DatesSet σ' :=
+  fwdPass_inv env DatesSet (fun _ => True)
+    (fun σ σ' t v _ hi ht _ h =>
+      place_datesSet σ σ' t hi (fwdPlace_ext env σ σ' t v ht h).1 (fwdPlace_ext env σ σ' t v ht h).2
+        (fwdPlace_dates env σ σ' t v h))
+    (fun _ _ _ _ => trivial) (fun _ _ _ _ _ => trivial) fuel stk σ t m σ' trivial hi h
+
+theorem bwdPass_datesSet (env : Env) (fuel : Nat) (stk : List Uid) (σ : SS) (t : Uid) (m : Time) (σ' : SS)
+    (hi : DatesSet σ) (h : bwdPass env fuel stk σ t m = .ok σ') : DatesSet σ' :=
+  bwdPass_inv env DatesSet (fun _ => True)
+    (fun σ σ' t m v _ hi ht _ h =>
+      place_datesSet σ σ' t hi (bwdPlace_ext env σ σ' t m v ht h).1 (bwdPlace_ext env σ σ' t m v ht h).2
+        (bwdPlace_dates env σ σ' t m v h))
+    (fun _ _ _ _ => trivial) (fun _ _ _ _ _ => trivial) fuel stk σ t m σ' trivial hi h
+
+/-- all members are done once the roots have been passed -/
+theorem members_done (env : Env) (σ : SS) (mem : List Uid) (hm : members env = some mem) (hcl : DoneClosed env σ)
+    (hroots : ∀ r ∈ env.roots, r ∈ σ.done) : ∀ t ∈ mem, t ∈ σ.done := by
+  intro t ht
+  obtain ⟨rt, hrt, l, hl, htl⟩ := (members_spec env mem hm).2 t ht
+  exact hcl.subtree (hroots rt hrt) _ l hl t htl
+
+theorem forwardCalc_dates (env : Env) (f0 : Uid → Fields) (res0 : List (Option Nat × Cal)) (o : Output)
+    (h : forwardCalc env f0 res0 = .ok o) :
+    ∀ t ∈ memberList env, (o.f t).start.isSome = true ∧ (o.f t).end_.isSome = true := by
+  obtain ⟨mem, σ, hm, hp, ho⟩ := fwdRun_ok env f0 res0 o (forwardCalc_run env f0 res0 o h)
+  have hI : DoneClosed env σ ∧ DatesSet σ := by
+    refine passList_inv (fun s => DoneClosed env s ∧ DatesSet s) _ _ ?_ _ _ ⟨?_, ?_⟩ hp
+    · intro a x b _ ha hh
+      exact ⟨fwdPass_doneClosed env _ _ _ _ _ _ ha.1 hh, fwdPass_datesSet env _ _ _ _ _ _ ha.2 hh⟩
+    · intro x hx; cases hx
+    · intro x hx; cases hx
+  have hroots : ∀ r ∈ env.roots, r ∈ σ.done :=
+    passList_all_done _ _ (fun a x b _ hh => fwdPass_ext env _ _ _ _ _ _ hh) _ _ hp
+  intro t ht
+  rw [memberList_eq env mem hm] at ht
+  subst ho
+  exact hI.2 t (members_done env σ mem hm hI.1 hroots t ht)
+
+theorem backwardCalc_dates (env : Env) (f0 : Uid → Fields) (res0 : List (Option Nat × Cal)) (o : Output)
+    (h : backwardCalc env f0 res0 = .ok o) :
+    ∀ t ∈ memberList env, (o.f t).start.isSome = true ∧ (o.f t).end_.isSome = true := by
+  obtain ⟨mem, σ, hm, hp, ho⟩ := bwdRun_ok env f0 res0 o (backwardCalc_run env f0 res0 o h)
+  have hI : DoneClosed env σ ∧ DatesSet σ := by
+    refine passList_inv (fun s => DoneClosed env s ∧ DatesSet s) _ _ ?_ _ _ ⟨?_, ?_⟩ hp
+    · intro a x b _ ha hh
+      exact ⟨bwdPass_doneClosed env _ _ _ _ _ _ ha.1 hh, bwdPass_datesSet env _ _ _ _ _ _ ha.2 hh⟩
+    · intro x hx; cases hx
+    · intro x hx; cases hx
+  have hroots : ∀ r ∈ env.roots, r ∈ σ.done := fun r hr =>
+    passList_all_done _ _ (fun a x b _ hh => bwdPass_ext env _ _ _ _ _ _ hh) _ _ hp r (List.mem_reverse.2 hr)
+  intro t ht
+  rw [memberList_eq env mem hm] at ht
+  subst ho
+  exact hI.2 t (members_done env σ mem hm hI.1 hroots t ht)
+
+/-! ### congruence of loops and passes -/
+
+/-- two step functions that agree on the states of an invariant (which the first keeps) give the same loop -/
+theorem passList_congr (I : SS → Prop) (step step' : SS → Uid → Res SS) :
+    ∀ (xs : List Uid),
+      (∀ σ x σ', x ∈ xs → I σ → step σ x = .ok σ' → I σ') →
+      (∀ σ x, x ∈ xs → I σ → step σ x = step' σ x) →
+      ∀ σ, I σ → passList step σ xs = passList step' σ xs := by
+  intro xs
+  induction xs with
+  | nil => intro _ _ σ _; rfl
+  | cons x xs ih =>
+    intro hinv heq σ hi
+    simp only [passList]
+    rw [← heq σ x List.mem_cons_self hi]
+    cases h1 : step σ x with
+    | error e => rfl
+    | ok σ1 =>
+      simp only [bind, Except.bind]
+      exact ih (fun a y b hy => hinv a y b (List.mem_cons_of_mem _ hy))
+        (fun a y hy => heq a y (List.mem_cons_of_mem _ hy)) σ1 (hinv σ x σ1 List.mem_cons_self hi h1)
+
+theorem gPass_succ (env : Env) (links kids : Uid → List Uid) (agg : SS → List Uid → Time → Time)
+    (place : SS → Uid → Time → Time → Res SS) (fuel : Nat) (stk : List Uid) (σ : SS) (t : Uid) (m : Time)
+    (hd : t ∉ σ.done) (hs : t ∉ stk) :
+    gPass env links kids agg place (fuel + 1) stk σ t m =
+      (passList (fun σ p => if (env.info p).member == (env.info t).member
+          then gPass env links kids agg place fuel (t :: stk) σ p m else pure σ) σ (links t)).bind (fun σ1 =>
+        (passList (fun σ c => gPass env links kids agg place fuel (t :: stk) σ c (agg σ1 (links t) m)) σ1 (kids t)).bind
+          (fun σ2 => place σ2 t m (agg σ1 (links t) m))) := by
+  have h1 : σ.done.contains t = false := by simpa using hd
+  have h2 : stk.contains t = false := by simpa using hs
+  simp only [gPass, h1, h2]
+  rfl
+
+section congr
+variable (env env' : Env) (links kids : Uid → List Uid) (agg : SS → List Uid → Time → Time)
+  (place place' : SS → Uid → Time → Time → Res SS)
+  (hplace_ext : ∀ σ σ' t m v, t ∉ σ.done → place σ t m v = .ok σ' → Ext σ σ' ∧ σ'.done = σ.done ++ [t])
+  (hmem : ∀ p, (env.info p).member = (env'.info p).member)
+include hplace_ext hmem
+
+/-- two memoised traversals whose placements agree on the states of an invariant `I` (for tasks satisfying `Q`
+    and dates satisfying `P`) are equal, errors included -/
+theorem gPass_congr (I : SS → Prop) (Q : Uid → Prop) (P : Time → Prop)
+    (hplace : ∀ σ σ' t m v, Q t → I σ → t ∉ σ.done → (∀ c ∈ kids t, c ∈ σ.done) → place σ t m v = .ok σ' → I σ')
+    (hkids : ∀ t c, Q t → c ∈ kids t → Q c)
+    (hlinks : ∀ t p, Q t → p ∈ links t → (env.info p).member = (env.info t).member → Q p)
+    (hagg : ∀ σ l m, P m → P (agg σ l m))
+    (heq : ∀ σ t m v, Q t → I σ → P m → P v → t ∉ σ.done → place σ t m v = place' σ t m v) :
+    ∀ (fuel : Nat) (stk : List Uid) (σ : SS) (t : Uid) (m : Time), Q t → I σ → P m →
+      gPass env links kids agg place fuel stk σ t m = gPass env' links kids agg place' fuel stk σ t m := by
+  intro fuel
+  induction fuel with
+  | zero => intros; rfl
+  | succ fuel ih =>
+    intro stk σ t m hq hi hp
+    by_cases hd : t ∈ σ.done
+    · have h1 : σ.done.contains t = true := by simpa using hd
+      simp only [gPass, h1, if_true]
+    by_cases hs : t ∈ stk
+    · have h1 : σ.done.contains t = false := by simpa using hd
+      have h2 : stk.contains t = true := by simpa using hs
+      simp only [gPass, h1, h2, if_true]
+    rw [gPass_succ _ _ _ _ _ _ _ _ _ _ hd hs, gPass_succ _ _ _ _ _ _ _ _ _ _ hd hs]
+    have hx := gPass_extS env links kids agg place hplace_ext fuel (t :: stk)
+    have hinv := gPass_inv env links kids agg place hplace_ext I Q hplace hkids hlinks fuel (t :: stk)
+    have e1 : passList (fun σ p => if (env.info p).member == (env.info t).member
+          then gPass env links kids agg place fuel (t :: stk) σ p m else pure σ) σ (links t) =
+        passList (fun σ p => if (env'.info p).member == (env'.info t).member
+          then gPass env' links kids agg place' fuel (t :: stk) σ p m else pure σ) σ (links t) := by
+      refine passList_congr I _ _ _ ?_ ?_ σ hi
+      · intro a x b hxl ha hh
+        split at hh
+        · rename_i hm
+          exact hinv _ _ _ _ (hlinks t x hq hxl (by simpa using hm)) ha hh
+        · cases hh; exact ha
+      · intro a x hxl ha
+        rw [← hmem x, ← hmem t]
+        split
+        · rename_i hm
+          exact ih _ _ _ _ (hlinks t x hq hxl (by simpa using hm)) ha hp
+        · rfl
+    rw [← e1]
+    cases h1 : passList (fun σ p => if (env.info p).member == (env.info t).member
+          then gPass env links kids agg place fuel (t :: stk) σ p m else pure σ) σ (links t) with
+    | error e => rfl
+    | ok σ1 =>
+      simp only [Except.bind]
+      have x1 : ExtS (t :: stk) σ σ1 := passList_extS _ _ _ (fun a x b _ hh => by
+        split at hh
+        · exact (hx _ _ _ _ hh).1
+        · cases hh; exact ExtS.refl _ _) _ _ h1
+      have i1 : I σ1 := passList_inv I _ _ (fun a x b hxl ha hh => by
+        split at hh
+        · rename_i hm
+          exact hinv _ _ _ _ (hlinks t x hq hxl (by simpa using hm)) ha hh
+        · cases hh; exact ha) _ _ hi h1
+      have pv := hagg σ1 (links t) m hp
+      have e2 : passList (fun σ c => gPass env links kids agg place fuel (t :: stk) σ c (agg σ1 (links t) m)) σ1 (kids t) =
+          passList (fun σ c => gPass env' links kids agg place' fuel (t :: stk) σ c (agg σ1 (links t) m)) σ1 (kids t) := by
+        refine passList_congr I _ _ _ ?_ ?_ σ1 i1
+        · intro a x b hxl ha hh
+          exact hinv _ _ _ _ (hkids t x hq hxl) ha hh
+        · intro a x hxl ha
+          exact ih _ _ _ _ (hkids t x hq hxl) ha pv
+      rw [← e2]
+      cases h2 : passList (fun σ c => gPass env links kids agg place fuel (t :: stk) σ c (agg σ1 (links t) m)) σ1 (kids t) with
+      | error e => rfl
+      | ok σ2 =>
+        simp only []
+        have x2 : ExtS (t :: stk) σ1 σ2 := passList_extS _ _ _ (fun a x b _ hh => (hx _ _ _ _ hh).1) _ _ h2
+        have i2 : I σ2 := passList_inv I _ _ (fun a x b hxl ha hh => hinv _ _ _ _ (hkids t x hq hxl) ha hh) _ _ i1 h2
+        have ht2 : t ∉ σ2.done := (x1.trans x2).2 t List.mem_cons_self hd
+        exact heq σ2 t m _ hq i2 hp pv ht2
+
+end congr
+
+/-! ### clock independence (C06) -/
+
+/-- the environment with another clock -/
+def Env.setClock (env : Env) (clk : Nat → Time) : Env := { env with clock := clk }
+
+@[simp] theorem Env.setClock_n (env : Env) (clk : Nat → Time) : (env.setClock clk).n = env.n := rfl
+@[simp] theorem Env.setClock_info (env : Env) (clk : Nat → Time) : (env.setClock clk).info = env.info := rfl
+@[simp] theorem Env.setClock_roots (env : Env) (clk : Nat → Time) : (env.setClock clk).roots = env.roots := rfl
+@[simp] theorem Env.setClock_balance (env : Env) (clk : Nat → Time) : (env.setClock clk).balance = env.balance := rfl
+@[simp] theorem Env.setClock_defaultEst (env : Env) (clk : Nat → Time) : (env.setClock clk).defaultEst = env.defaultEst := rfl
+@[simp] theorem Env.setClock_bound (env : Env) (clk : Nat → Time) : (env.setClock clk).bound = env.bound := rfl
+@[simp] theorem Env.setClock_clock (env : Env) (clk : Nat → Time) : (env.setClock clk).clock = clk := rfl
+
+/-! ### order facts -/
+
+theorem dayOf_mono {a b : Time} (h : a ≤ b) : dayOf a ≤ dayOf b := by
+  unfold dayOf
+  apply Rat.le_floor_iff.2
+  have : (a.floor : Rat) ≤ a := Rat.floor_le a
+  grind
+
+theorem lt_of_dayOf_lt {a b : Time} (h : dayOf a < dayOf b) : a < b := by
+  apply Rat.not_le.1
+  intro hc
+  have := dayOf_mono hc
+  omega
+
+theorem maxT_left {a b : Time} (h : b ≤ a) : maxT a b = a := by
+  unfold maxT
+  split <;> grind
+
+theorem le_maxT_left (a b : Time) : a ≤ maxT a b := by
+  unfold maxT
+  split <;> grind
+
+/-- a third date not above `st` does not matter for the final maximum -/
+theorem maxT_drop {e nw st : Time} (h : nw ≤ st) : maxT (maxT e nw) st = maxT e st := by
+  unfold maxT
+  split <;> split <;> (try split) <;> grind
+
+theorem foldl_maxT_ge (l : List Time) : ∀ (m : Time), m ≤ l.foldl maxT m := by
+  induction l with
+  | nil => intro m; exact Rat.le_refl
+  | cons x l ih =>
+    intro m
+    simp only [List.foldl_cons]
+    have := ih (maxT m x)
+    have := le_maxT_left m x
+    grind
+
+theorem maxEnds_ge (σ : SS) (l : List Uid) (m : Time) : m ≤ maxEnds σ l m := foldl_maxT_ge _ m
+
+
+
+theorem fwdStart_clock (env : Env) (clk clk' : Nat → Time) (cal : Cal) (used : Int → Rat) (t : Uid) (m : Time)
+    (σ : SS) (h1 : ∀ k, clk k ≤ m) (h2 : ∀ k, clk' k ≤ m) :
+    fwdStart (env.setClock clk) cal used t m σ = fwdStart (env.setClock clk') cal used t m σ := by
+  unfold fwdStart
+  simp only [now, Env.setClock_info, Env.setClock_clock, maxT_left (h1 _), maxT_left (h2 _)]
+
+theorem fwdStart_leaf_day (env : Env) (cal : Cal) (used : Int → Rat) (t : Uid) (m : Time) (σ σ' : SS)
+    (hu : ∀ d, 0 ≤ used d) (hn : (σ.f t).start = none) (hl : (env.info t).children.isEmpty = true)
+    (h : fwdStart env cal used t m σ = .ok σ') : ∃ s, (σ'.f t).start = some s ∧ dayOf m ≤ dayOf s := by
+  unfold fwdStart at h
+  simp only [hn, hl, if_true, bind, Except.bind] at h
+  split at h
+  · cases h
+  · rename_i s hs
+    cases h
+    refine ⟨s, by simp [setF_f_same], ?_⟩
+    obtain ⟨d, c, g1, _, _, _, g5, _⟩ := nearestFwd_spec cal used _ s hu hs
+    rw [g5]
+    refine Int.le_trans (dayOf_mono ?_) g1
+    exact Rat.le_trans (le_maxT_left _ _) (le_maxT_left _ _)
+
+theorem fwdEnd_clock (env : Env) (clk clk' : Nat → Time) (cal : Cal) (used : Int → Rat) (t : Uid) (σ : SS)
+    (h : (σ.f t).end_ = none → (env.info t).children.isEmpty = true →
+      ∃ s, (σ.f t).start = some s ∧ (∀ k, clk k ≤ s) ∧ (∀ k, clk' k ≤ s)) :
+    fwdEnd (env.setClock clk) cal used t σ = fwdEnd (env.setClock clk') cal used t σ := by
+  unfold fwdEnd
+  cases he : (σ.f t).end_ with
+  | some e => rfl
+  | none =>
+    by_cases hl : (env.info t).children.isEmpty = true
+    · obtain ⟨s, hs, h1, h2⟩ := h he hl
+      simp only [now, Env.setClock_info, Env.setClock_clock, hl, if_true, hs, Option.getD_some,
+        maxT_left (h1 _), maxT_left (h2 _), maxT_drop (h1 _), maxT_drop (h2 _)]
+    · simp only [Env.setClock_info, hl]
+      rfl
+
+theorem fillEst_setClock (env : Env) (clk : Nat → Time) (t : Uid) (σ : SS) :
+    fillEst (env.setClock clk) t σ = fillEst env t σ := rfl
+
+theorem usedBy_setClock (env : Env) (clk : Nat → Time) (rows : List Row) (r : Option Nat) (t : Uid) :
+    usedBy (env.setClock clk) rows r t = usedBy env rows r t := rfl
+
+/-- one placement does not look at the clock when every reading lies on a day before the day of the lower bound
+    `m` and before the day of a start the task already has (and will keep, its end being open) -/
+theorem fwdPlace_clock (env : Env) (clk clk' : Nat → Time) (σ : SS) (t : Uid) (m : Time)
+    (hlow1 : ∀ k, dayOf (clk k) < dayOf m) (hlow2 : ∀ k, dayOf (clk' k) < dayOf m)
+    (hpos : ∀ r ∈ σ.rows, 0 < r.units)
+    (hfix : ∀ s, (σ.f t).start = some s → (σ.f t).end_ = none → (env.info t).children.isEmpty = true →
+      (∀ k, clk k ≤ s) ∧ (∀ k, clk' k ≤ s)) :
+    fwdPlace (env.setClock clk) σ t m = fwdPlace (env.setClock clk') σ t m := by
+  unfold fwdPlace
+  simp only [Env.setClock_info, usedBy_setClock, fillEst_setClock]
+  rcases hr : resLookup σ.res (env.info t).resource with ⟨res', cal⟩
+  simp only
+  by_cases hms : (env.info t).milestone = true
+  · simp only [hms, if_true]
+  · simp only [hms]
+    have hu : ∀ d, 0 ≤ usedBy env σ.rows (env.info t).resource t d := fun d => reserved_nonneg _ hpos _ _ _
+    rw [fwdStart_clock env clk clk' cal _ t m _ (fun k => Rat.le_of_lt (lt_of_dayOf_lt (hlow1 k)))
+      (fun k => Rat.le_of_lt (lt_of_dayOf_lt (hlow2 k)))]
+    cases h1 : fwdStart (env.setClock clk') cal (usedBy env σ.rows (env.info t).resource t) t m
+        { σ with res := res' } with
+    | error e => rfl
+    | ok σ1 =>
+      simp only [bind, Except.bind]
+      cases h2 : fillEst env t σ1 with
+      | error e => rfl
+      | ok σ2 =>
+        simp only
+        rw [fwdEnd_clock env clk clk' cal _ t σ2 ?_]
+        intro he hl
+        have a := fwdStart_res _ _ _ _ _ _ _ h1
+        have b := fillEst_dates _ _ _ _ h2
+        cases hs : (σ.f t).start with
+        | some s =>
+          have : σ1 = { σ with res := res' } := a.2.2 s hs
+          subst this
+          have he' : (σ.f t).end_ = none := by rw [← he, b.2]
+          exact ⟨s, by rw [b.1]; exact hs, hfix s hs he' hl⟩
+        | none =>
+          obtain ⟨s, hs1, hd⟩ := fwdStart_leaf_day (env.setClock clk') _ _ _ _ { σ with res := res' } _ hu hs hl h1
+          refine ⟨s, by rw [b.1]; exact hs1, fun k => ?_, fun k => ?_⟩
+          · exact Rat.le_of_lt (lt_of_dayOf_lt (Int.lt_of_lt_of_le (hlow1 k) hd))
+          · exact Rat.le_of_lt (lt_of_dayOf_lt (Int.lt_of_lt_of_le (hlow2 k) hd))
+
+
+theorem members_setClock (env : Env) (clk : Nat → Time) : members (env.setClock clk) = members env := rfl
+
+theorem memberList_setClock (env : Env) (clk : Nat → Time) : memberList (env.setClock clk) = memberList env := rfl
+
+theorem isolationOk_setClock (env : Env) (clk : Nat → Time) (f : Uid → Fields) (mem : List Uid) :
+    isolationOk (env.setClock clk) f mem = isolationOk env f mem := rfl
+
+theorem ancestorsOf_setClock (env : Env) (clk : Nat → Time) : ∀ (k : Nat) (t : Uid),
+    ancestorsOf (env.setClock clk) k t = ancestorsOf env k t := by
+  intro k
+  induction k with
+  | zero => intro t; rfl
+  | succ k ih =>
+    intro t
+    simp only [ancestorsOf, Env.setClock_info, ih]
+
+theorem leavesOf_setClock (env : Env) (clk : Nat → Time) (t : Uid) :
+    leavesOf (env.setClock clk) t = leavesOf env t := rfl
+
+theorem waitsFor_setClock (env : Env) (clk : Nat → Time) : waitsFor (env.setClock clk) = waitsFor env := by
+  funext t
+  simp only [waitsFor, ancestorsOf_setClock, leavesOf_setClock, Env.setClock_info, Env.setClock_n]
+
+theorem checkLoops_setClock (env : Env) (clk : Nat → Time) (mem : List Uid) :
+    checkLoops (env.setClock clk) mem = checkLoops env mem := by
+  simp only [checkLoops, waitsFor_setClock, Env.setClock_info, Env.setClock_n]
+
+theorem prepare_setClock (env : Env) (clk : Nat → Time) (f : Uid → Fields) (mem : List Uid) :
+    prepare (env.setClock clk) f mem = prepare env f mem := rfl
+
+/-- the hypotheses of clock independence for one clock (the same as `ClockHyp` of Props/C06.lean) -/
+def ClockBefore (env : Env) (f0 : Uid → Fields) (clk : Nat → Time) : Prop :=
+  (∀ k, dayOf (clk k) < dayOf env.bound) ∧
+  (∀ t ∈ memberList env, ∀ s, (f0 t).start = some s → (f0 t).end_ = none → ∀ k, dayOf (clk k) < dayOf s) ∧
+  (∀ t ∈ memberList env, ∀ e, (f0 t).end_ = some e → e ≤ clk 0)
+
+/-- without user-fixed ends after the first clock reading the forward pre-check is the clock-free backward one -/
+theorem fwdPrecheck_eq_bwd (env : Env) (f0 : Uid → Fields)
+    (h : ∀ t ∈ memberList env, ∀ e, (f0 t).end_ = some e → e ≤ env.clock 0) :
+    fwdPrecheck env f0 = bwdPrecheck env f0 := by
+  unfold fwdPrecheck bwdPrecheck
+  cases hm : members env with
+  | none => rfl
+  | some mem =>
+    have hml := memberList_eq env mem hm
+    simp only [bind, Except.bind, pure, Except.pure]
+    split
+    · rfl
+    · cases checkLoops env mem with
+      | error e => rfl
+      | ok u =>
+        simp only
+        rw [if_neg]
+        intro hc
+        rw [List.any_eq_true] at hc
+        obtain ⟨t, ht, hc⟩ := hc
+        split at hc
+        · rename_i e he
+          have := h t (hml ▸ ht) e he
+          simp only [decide_eq_true_eq] at hc
+          grind
+        · cases hc
+
+theorem bwdPrecheck_setClock (env : Env) (clk : Nat → Time) (f0 : Uid → Fields) :
+    bwdPrecheck (env.setClock clk) f0 = bwdPrecheck env f0 := by
+  unfold bwdPrecheck
+  simp only [members_setClock, isolationOk_setClock, checkLoops_setClock]
+
+
 end Pj
